@@ -63,7 +63,7 @@ func init() {
 					if rs := returnsOf(less); len(rs) == 1 && len(less.Params) == 2 {
 						if b, ok := rs[0].Results[0].(*ssa.BinOp); ok {
 							cc := canonCond(b, true)
-							i, j := less.Params[0].Name(), less.Params[1].Name()
+							i, j := accessPath(less.Params[0]), accessPath(less.Params[1])
 							detail = cc
 							parts := strings.Split(cc, " < ")
 							if len(parts) == 2 && strings.Contains(parts[0], "."+fld+"["+i+"]") && strings.HasSuffix(parts[0], ".Order()") &&
@@ -110,7 +110,7 @@ func init() {
 				}
 				phase[ph] = append(phase[ph], inv{ci, accessPath(cc.Value)})
 			}
-			wantList := map[string]string{"prepare": "sc.statPres[", "check": "sc.ruleChecks[", "stat": "sc.stats["}
+			wantList := map[string]string{"prepare": "{SlotChain}.statPres[", "check": "{SlotChain}.ruleChecks[", "stat": "{SlotChain}.stats["}
 			for _, ph := range []string{"prepare", "check", "stat"} {
 				if len(phase[ph]) == 0 {
 					c.Violate(fnKey(f)+" / "+ph+"-phase", f.Pos(), "SlotChain.Entry no longer runs the %s slots", ph)
@@ -188,14 +188,14 @@ func init() {
 					if !isCall || !isBlockedCall(call) {
 						continue
 					}
-					final := strings.HasSuffix(accessPath(call.Call.Args[0]), "ctx.RuleCheckResult")
+					final := strings.HasSuffix(accessPath(call.Call.Args[0]), "{EntryContext}.RuleCheckResult")
 					if final && ft.Truth == !passed {
 						ok = true
 					}
 				}
 				if !passed && ok {
 					be := accessPath(in.ci.Common().Args[1])
-					ok = strings.HasSuffix(be, "ctx.RuleCheckResult.blockErr")
+					ok = strings.HasSuffix(be, "{EntryContext}.RuleCheckResult.blockErr")
 				}
 				c.Check(ok, key, in.ci.Pos(), "%s must be selected by IsBlocked()==%v of the final ctx.RuleCheckResult", in.ci.Common().Method.Name(), !passed)
 			}
